@@ -269,6 +269,23 @@ func (g *gen) bounded(k string, limit int64, ws [][2]int) {
 	g.reads(11)
 }
 
+// one "run into an earlier run" case: a write sequence whose first three writes are S1 (ahead in the file), S2 (lower, not
+// adjacent: now the most recently created list) and a write that starts exactly at the end of S2 and runs into S1; then the
+// remaining writes.  The dirty read and FileHandle.Read are judged after every write from the third on, then flush and reads.
+func (g *gen) runInto(k string, limit int64, ws [][2]int, ext int) {
+	opReset(k, limit)
+	for i, w := range ws {
+		opWrite(int64(w[0]), g.payload(w[1]))
+		if i >= 2 {
+			opReadDirty(0, ext+2)
+			opRead(0, ext+2)
+		}
+	}
+	opFlush()
+	opReadDirty(0, ext+2)
+	opRead(0, ext+2)
+}
+
 func (g *gen) exhaustive(depth int, k string, limit int64) {
 	var rec func(ws [][2]int)
 	rec = func(ws [][2]int) {
@@ -396,5 +413,58 @@ func main() {
 	}
 	for i := 0; i < a.N(40); i++ {
 		g.random(10 + g.r.Intn(30))
+	}
+	// sequential run into an earlier run (>= 4 writes): S1 = [a,a+s1) ahead, S2 = [b,b+s2) below it with a gap, a third write from
+	// the end of S2 into / over / past S1, then EVERY fourth write over offsets 0..6 x sizes 1..3; temp-file buffer (where the
+	// lists keep creation order and nodes are merged by temp offset) in full, the in-memory buffer on a third of the cases
+	{
+		idx := 0
+		for a1 := 2; a1 <= 5; a1++ {
+			for s1 := 2; s1 <= 3; s1++ {
+				for b := 0; b+1 < a1; b++ {
+					for s2 := 1; b+s2 < a1 && s2 <= 2; s2++ {
+						for e3 := a1 + 1; e3 <= a1+s1+1; e3++ {
+							for o4 := 0; o4 <= 6; o4++ {
+								for s4 := 1; s4 <= 3; s4++ {
+									idx++
+									if !a.Thorough() && uint64(idx)%2 != a.Seed%2 {
+										continue
+									}
+									ws := [][2]int{{a1, s1}, {b, s2}, {b + s2, e3 - b - s2}, {o4, s4}}
+									g.runInto("tmp", []int64{64, 5, 8}[idx%3], ws, 10)
+									if idx%3 == 0 {
+										g.runInto("mem", []int64{64, 5}[idx%2], ws, 10)
+									}
+								}
+							}
+						}
+					}
+				}
+			}
+		}
+	}
+	// the same shape at random places with further writes around the run-in range
+	for i := 0; i < a.N(80); i++ {
+		far := g.r.Chance(1, 3)
+		farW := [2]int{19 + g.r.Intn(4), 1 + g.r.Intn(3)} // an unrelated list far right, created between S1 and S2
+		a1 := 5 + g.r.Intn(10)
+		s1 := 2 + g.r.Intn(5)
+		s2 := 1 + g.r.Intn(3)
+		b := g.r.Intn(a1 - s2)
+		e3 := a1 + 1 + g.r.Intn(s1+1)
+		ws := [][2]int{{a1, s1}}
+		if far {
+			ws = append(ws, farW)
+		}
+		ws = append(ws, [2]int{b, s2}, [2]int{b + s2, e3 - b - s2})
+		for n := 1 + g.r.Intn(3); n > 0; n-- {
+			o := a1 - 2 + g.r.Intn(e3-a1+3)
+			ws = append(ws, [2]int{o, 1 + g.r.Intn(4)})
+		}
+		k := "tmp"
+		if g.r.Chance(1, 4) {
+			k = "mem"
+		}
+		g.runInto(k, []int64{64, 5, 8, 3}[g.r.Intn(4)], ws, 26)
 	}
 }
